@@ -49,6 +49,18 @@ CHECKS["C18"] = dict(
     note="Bound: <= 4 caches following the Client miss contract (None, (None, None), {}). Trusted: z3, CrossHair models.",
     design="3 (C18)", technique=CH)
 
+NETNOTE = ("Environment: vkit/net.py (socket_module stand-in, every reply byte tagged with the owning call), vkit/refserver.py "
+           "(memcached model) and vkit/strict.py (strict request grammar), all validated at setup; server-level faults replace "
+           "whole replies. Trusted: z3, CrossHair models, these stubs.")
+CHECKS["C01"] = dict(
+    text="Bounded symbolic execution of the real Client/PooledClient/HashClient call paths against a tagged-reply network "
+         "model: noreply choices, fault position (every connect/sendall/recv of the history), fault kind, cut position and "
+         "follow-up operation are symbolic; after every call the monitors require that no recv returned another call's "
+         "bytes, none waited with nothing in flight, a noreply call never read, and no reply is left queued on a socket "
+         "that stays open. All shards exhaust within the bound.",
+    note="Bound: 2-call histories (thorough: 3), one fault, one cut, concrete 2-byte values. " + NETNOTE,
+    design="3 (C01)", technique=CH)
+
 NOT_YET = {}
 
 NA_REASON_PENDING = "check not built yet in this session (planned; see DESIGN.md section 3)"
